@@ -207,8 +207,8 @@ def build(ch):
         # entity expression of a closed per-culture pool: the rule's entity then has a neighbour it may wrongly share text with
         items = S['inputs'].get(cul, [])
         exts = EN_EXTENSIONS if cul == 'en-us' else list(dict.fromkeys((S['dt_entities'].get(cul) or [])[:4] + S['entities'][cul][:4]))
-        if CFG['tier'] == 'quick' and cul != 'en-us':
-            exts = exts[:2] + exts[4:5]              # quick: two date-time expressions and one other entity (no seed rotation)
+        if cul != 'en-us':
+            exts = exts[:2] + exts[4:5]              # two date-time expressions and one other entity (same in both tiers, no seed rotation)
         if not items or not exts:
             ch.prune()
         ci = ch.pick_index('chunk', (len(items) + 24) // 25)
